@@ -44,6 +44,8 @@ type FuncContract struct {
 	Modifies []string
 	HasMod   bool
 	Loops    map[int]*LoopSpec
+	Ghosts   []QVar // ghost parameters: arbitrary but fixed values the clauses may mention
+	Insts    map[string][]Expr // "callee.ghost" -> explicit instantiations at call sites in this function
 	Trusted  bool // contract assumed, body not verified
 	MayPanic bool
 	Extern   bool
@@ -101,7 +103,7 @@ var topKeywords = map[string]bool{"func": true, "extern": true, "pred": true, "g
 	"lemma": true, "axiom": true, "benign": true, "fn": true}
 var clauseKeywords = map[string]bool{"props": true, "arith": true, "requires": true, "ensures": true,
 	"modifies": true, "loop": true, "invariant": true, "decreases": true, "unroll": true, "trusted": true,
-	"maypanic": true, "guarantee": true, "guards": true}
+	"maypanic": true, "guarantee": true, "guards": true, "ghostparam": true, "inst": true}
 
 type logicalLine struct {
 	kw   string
@@ -249,6 +251,9 @@ func parseSig(sig string, fc *FuncContract) error {
 			if len(strings.Fields(strings.TrimSpace(p))) >= 2 {
 				named = true
 			}
+		}
+		if fc.Extern {
+			named = true
 		}
 		for i, p := range pieces {
 			if named {
@@ -408,6 +413,28 @@ func (cs *Contracts) loadFile(path, pkgPath string) error {
 			}
 		case "arith":
 			curFunc.Arith = strings.TrimSpace(l.rest)
+		case "inst":
+			// inst callee.ghost expr, expr
+			f := strings.SplitN(strings.TrimSpace(l.rest), " ", 2)
+			if len(f) != 2 || curFunc == nil {
+				return fmt.Errorf("%s:%d: inst callee.ghost expr, ...", path, l.line)
+			}
+			if curFunc.Insts == nil {
+				curFunc.Insts = map[string][]Expr{}
+			}
+			for _, u := range splitTopLevel(f[1], ',') {
+				ue, err := parseSpec(u)
+				if err != nil {
+					return fmt.Errorf("%s:%d: inst: %v", path, l.line, err)
+				}
+				curFunc.Insts[f[0]] = append(curFunc.Insts[f[0]], ue)
+			}
+		case "ghostparam":
+			f := strings.Fields(l.rest)
+			if len(f) < 2 || curFunc == nil {
+				return fmt.Errorf("%s:%d: ghostparam name type", path, l.line)
+			}
+			curFunc.Ghosts = append(curFunc.Ghosts, QVar{f[0], strings.Join(f[1:], "")})
 		case "trusted":
 			curFunc.Trusted = true
 		case "maypanic":
